@@ -263,7 +263,7 @@ Definition classify (line : str) : cls :=
       match cmd with
       | [] => Empty
       | _ =>
-        let cmd := match cmd with 46 :: r => r | _ => cmd end in
+        let cmd := match cmd with c0 :: r => if c0 =? 46 then r else cmd | [] => cmd end in
         let line := if str_eqb cmd (s2z "EOF") then s2z ".EOF" else line in
         match cmd with
         | [] => Empty
@@ -298,7 +298,8 @@ Record World := {
                                               (* expand boxed spaced nullvalue narrow unicode *)
   render_csv : bool -> str -> result -> text; (* expand nullvalue *)
   print_entries : stmt -> wexn + text;        (* execute_print(compile(statement), out) *)
-  queries : list query_directive;             (* self.queries, first directive of a name wins *)
+  directives : list query_directive;          (* the query directives of the ledger, in entry order *)
+  ledger_errors : option text;                (* printer.print_errors(context.errors), None when there are none *)
 }.
 
 Inductive chan := Outfile | Stdout | Stderr.
@@ -320,6 +321,7 @@ Arguments EText {W}. Arguments EWarn {W}. Arguments EAux {W}. Arguments ERaise {
 
 Section Shell.
 Variable W : World.
+Variable quiet : bool.   (* the shell was started with --no-errors *)
 
 Definition say (c : chan) (s : str) : event W := EText c (lit W s).
 (* print(s, file=...) *)
@@ -429,7 +431,32 @@ Fixpoint dedup_q (seen : list str) (l : list query_directive) : list query_direc
   | [] => []
   | q :: t => if mem (q_name q) seen then dedup_q seen t else q :: dedup_q (q_name q :: seen) t
   end.
-Definition named_queries : list query_directive := dedup_q [] (queries W).
+Definition named_queries : list query_directive := dedup_q [] (directives W).
+
+(* _extract_queries warns about every later directive that reuses a name *)
+Fixpoint dup_warnings (seen : list str) (l : list query_directive) : list (event W) :=
+  match l with
+  | [] => []
+  | q :: t =>
+      if mem (q_name q) seen
+      then EWarn (s2z "duplicate query name """ ++ q_name q ++ [34]) :: dup_warnings seen t
+      else dup_warnings (q_name q :: seen) t
+  end.
+
+(* do_reload (batch mode: no statistics) *)
+Definition do_reload : list (event W) :=
+  dup_warnings [] (directives W) ++
+  match ledger_errors W with
+  | Some r => if quiet then [] else [EText Stderr r]
+  | None => []
+  end.
+
+(* do_errors *)
+Definition do_errors : list (event W) :=
+  match ledger_errors W with
+  | Some r => [EText Stdout r]
+  | None => [println Outfile (s2z "(no errors)")]
+  end.
 
 Definition find_query (name : str) : option query_directive :=
   find (fun q => str_eqb (q_name q) name) named_queries.
@@ -493,6 +520,8 @@ Definition step (st : state) (line : str) : state * list (event W) * bool :=
       else if str_eqb name (s2z "run") then (st, pre ++ do_run st arg, false)
       else if str_eqb name (s2z "exit") || str_eqb name (s2z "quit") then (st, pre, true)
       else if str_eqb name (s2z "EOF") then (st, pre ++ [println Outfile (s2z "exit")], true)
+      else if str_eqb name (s2z "reload") then (st, pre ++ do_reload, false)
+      else if str_eqb name (s2z "errors") then (st, pre ++ do_errors, false)
       else (st, pre ++ [EAux name arg], false)
   end.
 
@@ -530,16 +559,12 @@ Fixpoint join_sp (l : list str) : str :=
 Definition cli_line (c : cli) : str :=
   match c_query c with [] => c_stdin c | q => join_sp q end.
 
-(* [ledger_errors]: the rendered error report of the loaded ledger, None when it has no errors.
-   Result: is the report written to stderr, where [Outfile] events go, and the events. *)
-Definition cli_run (c : cli) (ledger_errors : option str) : list (event W) * option str * list (event W) :=
-  let report := match ledger_errors with
-                | Some r => if c_quiet c then [] else [say Stderr r]
-                | None => []
-                end in
-  (report, c_output c, snd (fst (step (cli_state c) (cli_line c)))).
-
 End Shell.
+
+(* shell.main in batch mode: what constructing the shell writes (do_reload), where [Outfile]
+   events go (None = standard output), and the events of the one command *)
+Definition cli_run (W : World) (c : cli) : list (event W) * option str * list (event W) :=
+  (do_reload W (c_quiet c), c_output c, snd (fst (step W (c_quiet c) (cli_state c) (cli_line c)))).
 
 
 (* ------------------------------------------------------------------------- *)
@@ -567,7 +592,7 @@ Record sres := { sr_stmt : sstmt; sr_numberified : bool }.
 Definition o_sstmt (s : sstmt) : out := OL [ON (ss_id s); o_optZ (ss_close s)].
 Definition o_sres (r : sres) : out := OL [o_sstmt (sr_stmt r); o_bool (sr_numberified r)].
 
-Definition sym_world (tbl : list qfact) (qs : list query_directive) : World := {|
+Definition sym_world (tbl : list qfact) (qs : list query_directive) (errs : bool) : World := {|
   stmt := sstmt; result := sres; text := out; wexn := out;
   lit := fun s => OL [ON 0; o_str s];
   parse := fun t =>
@@ -596,7 +621,8 @@ Definition sym_world (tbl : list qfact) (qs : list query_directive) : World := {
   print_entries := fun s =>
     if match ss_close s with None => f_ok (ss_fact s) | Some _ => f_ok_closed (ss_fact s) end
     then inr (OL [ON 3; o_sstmt s]) else inl (OL [ON 1; o_sstmt s]);
-  queries := qs;
+  directives := qs;
+  ledger_errors := if errs then Some (OL [ON 4]) else None;
 |}.
 
 Definition o_chan (c : chan) : out := ON (match c with Outfile => 0 | Stdout => 1 | Stderr => 2 end).
@@ -627,21 +653,21 @@ Definition o_value (v : value) : out :=
 Definition o_state (st : state) : out := o_list (fun nv => OL [o_str (fst nv); o_value (snd nv)]) st.
 
 (* run a session from a given state: per line (events, stop flag, state afterwards) *)
-Fixpoint session (W : World) (ft : text W -> out) (fe : wexn W -> out) (st : state) (lines : list str) : list out :=
+Fixpoint session (W : World) (quiet : bool) (ft : text W -> out) (fe : wexn W -> out) (st : state) (lines : list str) : list out :=
   match lines with
   | [] => []
   | l :: t =>
-      let '(st', evs, stop) := step W st l in
-      OL [o_list (o_event ft fe) evs; o_bool stop; o_state st'] :: session W ft fe st' t
+      let '(st', evs, stop) := step W quiet st l in
+      OL [o_list (o_event ft fe) evs; o_bool stop; o_state st'] :: session W quiet ft fe st' t
   end.
 
-Definition session_out (tbl : list qfact) (qs : list query_directive) (st : state) (lines : list str) : out :=
-  OL (session (sym_world tbl qs) (fun t => t) (fun e => e) st lines).
+Definition session_out (tbl : list qfact) (qs : list query_directive) (errs quiet : bool) (st : state) (lines : list str) : out :=
+  OL (session (sym_world tbl qs errs) quiet (fun t => t) (fun e => e) st lines).
 
-Definition cli_out (tbl : list qfact) (qs : list query_directive) (c : cli) (errs : option str) : out :=
-  let '(report, target, evs) := cli_run (sym_world tbl qs) c errs in
-  OL [o_list (@o_event (sym_world tbl qs) (fun t => t) (fun e => e)) report; o_option o_str target;
-      o_list (@o_event (sym_world tbl qs) (fun t => t) (fun e => e)) evs; o_state (cli_state c)].
+Definition cli_out (tbl : list qfact) (qs : list query_directive) (errs : bool) (c : cli) : out :=
+  let '(startup, target, evs) := cli_run (sym_world tbl qs errs) c in
+  OL [o_list (@o_event (sym_world tbl qs errs) (fun t => t) (fun e => e)) startup; o_option o_str target;
+      o_list (@o_event (sym_world tbl qs errs) (fun t => t) (fun e => e)) evs; o_state (cli_state c)].
 
 Definition classify_out (line : str) : out :=
   match classify line with
